@@ -485,7 +485,6 @@ macro_rules! unary_name {
     }
 }
 
-unary_name!(abs, Float, Int);
 unary_name!(signum, Float, Int);
 unary_name!(sin, Float);
 unary_name!(round, Float);
@@ -520,6 +519,21 @@ macro_rules! unary_op {
     }
 }
 
+unary_op!(
+    abs,
+    (|a: F| Val::Float(a.abs()), Float),
+    (
+        |a: I| if a < I::zero() {
+            match I::zero().checked_sub(&a) {
+                Some(res) => Val::Int(res),
+                None => Val::Error(exerr!("overflow in abs({:?})", a)),
+            }
+        } else {
+            Val::Int(a)
+        },
+        Int
+    )
+);
 unary_op!(
     fact,
     (
